@@ -146,6 +146,17 @@ _R11 = {
 }
 for _p, _t in _R11.items():
     CHECKS[_p]["text"] = CHECKS[_p]["text"] + _t
+_R12 = {
+ "C03": " R6: no conversion to torch.get_default_dtype() or to a literal float32 / float16 / bfloat16 in the modules UPGrad and DualProj are made of (a float64 preference vector keeps its precision).",
+ "C11": " R6: every Tensor.numpy() in torchjd.aggregation detaches first (receiver chain followed through single-assignment locals) or passes force=True. Decorators of the shape factory -> decorator -> wraps-wrapper(PRE; return f(...)) are expanded into the decorated function before anything is analysed (all aggregator checks).",
+ "C12": " The start nodes may be filtered by a comprehension (`r for r in roots if r not in <excluded or a copy of it>`).",
+ "C14": " R9: the dictionary-level test on first dimensions is not a signed sum / mean of consecutive differences. Stack's constructor is also executed on members whose requirements grow along the list. Class attributes bound by setattr(C, name, v) at module level (alone or in a loop over string constants) are read as aliases (R5).",
+ "C19": " The weights·matrix product may be spelt torch.mv / mm / matmul / dot(x, y) or x.matmul(y), with transposed operands; a reaching definition of the weights that fixes their dtype to a torch.<dtype> literal is reported (R3).",
+ "C20": " R3 also reads the source: a loop that calls the expects-grad validator cannot be left by return / break.",
+ "C02": " The overlap test may be the inclusion-exclusion comparison len(A | B) < len(A) + len(B) (normalised to len(A & B) != 0); [*x] materialises like list(x).",
+}
+for _p, _t in _R12.items():
+    CHECKS[_p]["text"] = CHECKS[_p]["text"] + _t
 NA_PENDING = "check not built yet in this commit (planned, see DESIGN.md section 5)"
 NOT_APPLICABLE = {
  "C04": "Non-conflict is a numerical inequality on the outputs of a QP, a Frank-Wolfe loop and a conic solver with input-dependent allowances; no clause of it is visible in the shape of the code.",
